@@ -149,6 +149,18 @@ extern "C" void vs_stat_flag(const char* c) {
     if (h_deadlock) { h_deadlock(d.c_str()); }
     finish("VIOLATION", "DEADLOCK", d.c_str());
 }
+// Read-only livelock: the step budget ran out, and for the last >= 500000 decision points no thread has written a value anywhere while the running
+// threads kept reading the same few (<= 256) locations.  With memory frozen such a loop cannot end (the spin fix-point above needs yields / pauses in
+// the loop; a probe loop over a full hash table, say, has none).  Anything else that exhausts the budget stays inconclusive.
+static uint64_t last_write_step = 0; static std::unordered_set<const void*>* ro_addrs = nullptr; static bool ro_overflow = false;
+static inline void note_write() { write_epoch++; last_write_step = steps; ro_overflow = false; if (ro_addrs) ro_addrs->clear(); }
+static bool read_only_livelock() { return steps - last_write_step >= 500000 && !ro_overflow; }
+[[noreturn]] static void livelock() {
+    active = false;
+    std::string d = "no thread has written anything for the last " + std::to_string((unsigned long)(steps - last_write_step)) + " decision points while the running threads kept reading " + std::to_string(ro_addrs ? ro_addrs->size() : 0) + " locations;" + state_dump();
+    if (h_fixpoint) { h_fixpoint(d.c_str()); }
+    finish("VIOLATION", "SPIN-FIXPOINT", d.c_str());
+}
 [[noreturn]] static void fixpoint() {
     active = false;
     std::string d = "all live threads spin without any write;" + state_dump(); char b[64]; snprintf(b, sizeof b, " steps=%lu", (unsigned long)steps); d += b;
@@ -167,7 +179,7 @@ static void flush_one(Th* t) {
     case 4: { uint32_t v; memcpy(&v, e.val, 4); changed = __atomic_exchange_n((uint32_t*)e.addr, v, __ATOMIC_SEQ_CST) != v; break; }
     case 8: { uint64_t v; memcpy(&v, e.val, 8); changed = __atomic_exchange_n((uint64_t*)e.addr, v, __ATOMIC_SEQ_CST) != v; break; }
     }
-    if (changed) write_epoch++;
+    if (changed) note_write();
     for (int i = 1; i < t->nsb; i++) t->sb[i - 1] = t->sb[i];
     t->nsb--; total_sb--;
 }
@@ -269,7 +281,8 @@ static void point_pc(const void* addr, int kind, uintptr_t pc) {
     else me->pause_run = 0;
     steps++;
     if (trace_ring) trace_ring[trace_n++ % TRACE_SZ] = { me->id, kind, pc, addr, write_epoch };
-    if (steps > (uint64_t)step_budget) { active = false; finish("INCONCLUSIVE", "STEP-BUDGET", state_dump().c_str()); }
+    if (addr && !ro_overflow) { if (!ro_addrs) ro_addrs = new std::unordered_set<const void*>(); if (ro_addrs->size() <= 256) ro_addrs->insert(addr); else ro_overflow = true; }
+    if (steps > (uint64_t)step_budget) { if (read_only_livelock()) livelock(); active = false; finish("INCONCLUSIVE", "STEP-BUDGET", state_dump().c_str()); }
     // event classes (directed stalls)
     if (me->wake_pts > 0) { me->wake_pts--; event(E_WAKE); }
     if (me->start_pts > 0) { me->start_pts--; event(E_START); }
@@ -301,7 +314,7 @@ static void point_pc(const void* addr, int kind, uintptr_t pc) {
     switch_to(pick(kind));
 }
 extern "C" void vs_point(const void* addr, int kind) { point_pc(addr, kind, (uintptr_t)__builtin_return_address(0)); }
-extern "C" void vs_wrote(const void*) { write_epoch++; }
+extern "C" void vs_wrote(const void*) { note_write(); }
 // single-threaded phases run with the scheduler off (billions of cheap points); a spin that yields `limit` times
 // in a row without any value-changing write by the only running thread is still an exact fix-point
 static long inactive_limit = 0, inactive_cnt = 0; static uint64_t inactive_epoch = 0;
@@ -434,7 +447,7 @@ extern "C" long vs_syscall(long no, ...) {
             point_pc(addr, VSK_FWAKE, 0);
             int n = 0;
             for (int i = 0; i < nth && n < (int)a3; i++) if (ths[i]->st == BFUTEX && ths[i]->waddr == addr) { ths[i]->st = RUN; ths[i]->last_ran = decisions; n++; n_fwoken++; }
-            if (n) write_epoch++;
+            if (n) note_write();
             return n;
         }
     }
